@@ -87,7 +87,8 @@ func (i *interpreter) spawn(fr *frame, pos token.Pos, fn value, args []value) {
 			}
 			s.handoff(t)
 		}()
-		call(i, nil, pos, fn, args)
+		// the goroutine's stack is rooted in runtime.goexit, not in the test runner
+		call(i, &frame{i: i, goexit: true}, pos, fn, args)
 	}()
 }
 
